@@ -191,6 +191,7 @@ def prove_property(pid):
     vfile = "Properties/%s.v" % pid
     src = open(os.path.join(COQ, vfile)).read()
     names = [m.group(2) for m in THEOREM_RE.finditer(src)]
+    theorem_names = [m.group(2) for m in THEOREM_RE.finditer(src) if m.group(1) == "Theorem"]
     res = {"obligations": names, "discharged": [], "failed": None, "assumptions": {}, "log": ""}
     with Lock("coq"):
         coq_makefile()
@@ -226,7 +227,7 @@ def prove_property(pid):
             unknown = [a for a in axs if a not in ALLOWED_AXIOMS]
             if unknown:
                 bad.append("%s depends on %s" % (n, ", ".join(unknown)))
-    missing = [n for n in names if n.startswith(pid) and n not in pa_names]
+    missing = [n for n in theorem_names if n not in pa_names]
     if missing:
         bad.append("no Print Assumptions for: " + ", ".join(missing))
     if bad:
@@ -259,13 +260,13 @@ def _run_file(binary, lines, tag, timeout):
             pass
 
 
-def run_lines(binary, lines, tag, shards=NCPU, timeout=900):
+def run_lines(binary, lines, tag, shards=NCPU, timeout=900, per_shard=200):
     """Run command lines through a line-protocol binary, sharded; returns list of output lines
     (same length as lines). A crashed process yields 'CRASH' for its unanswered lines."""
     if not lines:
         return []
     n = len(lines)
-    shards = max(1, min(shards, (n + 199) // 200))
+    shards = max(1, min(shards, (n + per_shard - 1) // per_shard))
     size = (n + shards - 1) // shards
     chunks = [lines[i:i + size] for i in range(0, n, size)]
     from concurrent.futures import ThreadPoolExecutor
